@@ -2,24 +2,31 @@
 C18 — Haplotype-block values conserve genomic value and bound progeny.
 Property theorems only (helper lemmas: Lemmas/Haplo*.lean).
 
-Model: PybropsModel/Model/Haplo.lean
-  `nhaploblkChrom`  = haplo.py:nhaploblk_chrom (greedy loop transcribed, NaN branch for zero length)
-  `haplobinHB`      = haplo.py:haplobin with the boundary vectors as a parameter (`haplobin` = with
-                      exact `linspace`); cells that are never written are `none`
+Model: PybropsModel/Model/Haplo.lean — the code AFTER the repair of defect D10 (patches/C18_D10.diff)
+  `nhaploblkChrom`  = haplo.py:nhaploblk_chrom (greedy loop transcribed: full chromosomes are skipped while another
+                      has room; NaN branch for zero total length)
+  `haplobinHB`      = haplo.py:haplobin with the boundary vectors as a parameter (`haplobin` = with exact `linspace`,
+                      `haplobinR rnd` = with rounded `linspace`): per chromosome the painting loop, then the
+                      equal-count fallback when a label stayed unused; cells that are never written are `none`
   `haplobinBounds`  = haplo.py:haplobin_bounds (loop transcribed; closed form `blockPairs`)
+  `blocksOf`        = everything of `haplomat` / `_calc_haplomat` before the fill loop (marker-count guard included)
   `hmatFibre`/`haplomat`, `blockVal` = the fill loop of haplo.py:haplomat and of the three `_calc_haplomat`
   `ohv`, `opvLatent` = `_calc_ohvmat`, OPV `latentfn`
+  `…Prerepair`      = the same functions BEFORE the repair (section 4b: what was wrong, with counterexamples)
 Vocabulary of the statements (defined in Lemmas/, all executable):
   `ValidChroms chroms`   ≥ 1 chromosome, every chromosome non-empty with sorted positions
   `BoundsOK hb pos`      ≥ 2 boundaries, sorted, first ≤ every marker ≤ last (what `linspace` delivers,
                          in exact arithmetic — `exact_linspace_ok` — and under IEEE rounding)
-  `labelsAll hbs chroms k`  the label vector: marker `x` of a chromosome whose bins start at `k` gets
-                         `k + #{interior boundaries ≤ x}`
+  `labelsChrom hb k pos` the equal-width labels: marker `x` gets `k + #{interior boundaries ≤ x}`
+  `relabelChrom hb k pos`, `relabelAll hbs chroms k`  the labels the repaired `haplobin` returns (closed form)
   `nruns l`, `blockPairs l`  number of blocks / the `(start, stop)` pairs `haplobin_bounds` reports
   `BinsFilled hb pos`    every equal-width bin `[hb[j], hb[j+1])` (last one closed) holds a marker
 -/
 import PybropsModel.Lemmas.HaploPipeline
 import PybropsModel.Lemmas.HaploFixed
+import PybropsModel.Lemmas.HaploRepair
+import PybropsModel.Lemmas.HaploCapLit
+import PybropsModel.Lemmas.HaploXmap
 import PybropsModel.Lemmas.HaploSort
 import PybropsModel.Lemmas.HaploCount
 import PybropsModel.Lemmas.HaploRound
@@ -41,24 +48,38 @@ variable {α : Type} [Field α] [LinearOrder α] [IsStrictOrderedRing α]
 
 /-- **`blocks_sum = nhaploblk ∧ ∀ chr ≥ 1`.**  An accepted request returns one count per chromosome,
     every count is at least one and the counts sum to exactly the requested total — whatever the
-    positions are (no sortedness, no distinctness, zero-length chromosomes included). -/
+    positions are (no sortedness, no distinctness, zero-length chromosomes included) and whatever the
+    request is (totals beyond the marker count included). -/
 theorem blocks_sum (n : Nat) (chroms : List (List α)) (hne : chroms ≠ []) (nb : List Nat)
     (h : nhaploblkChrom n chroms = .ok nb) :
-    nb.length = chroms.length ∧ nb.sum = n ∧ ∀ x ∈ nb, 1 ≤ x := by
-  have hg : genlen chroms ≠ [] := by
-    intro h0
-    have := congrArg List.length h0
-    rw [genlen_length] at this
-    exact hne (List.length_eq_zero_iff.mp this)
-  have := nhaploblkChromOfLen_ok n (genlen chroms) nb hg h
-  rwa [genlen_length] at this
+    nb.length = chroms.length ∧ nb.sum = n ∧ ∀ x ∈ nb, 1 ≤ x :=
+  nhaploblkChrom_total n chroms hne nb h
+
+/-- **never more blocks than markers.**  For every total between the chromosome count and the marker count the
+    request is accepted and no chromosome is given more blocks than it has markers (so the marker-count guard of
+    `haplomat` / `_calc_haplomat` never fires inside the property's quantifier). -/
+theorem blocks_fit_markers (n : Nat) (chroms : List (List α)) (hc : ∀ c ∈ chroms, c ≠ [])
+    (hlo : chroms.length ≤ n) (hhi : n ≤ (chroms.map List.length).sum) :
+    ∃ nb, nhaploblkChrom n chroms = .ok nb ∧ nb.length = chroms.length ∧ nb.sum = n ∧ (∀ x ∈ nb, 1 ≤ x) ∧
+      List.Forall₂ (· ≤ ·) nb (chroms.map List.length) :=
+  nhaploblkChrom_ok n chroms hc hlo hhi
+
+/-- **the greedy loop, transcribed literally, equals the closed form.**  One iteration as the code writes it —
+    `full = nhaploblk_chrom >= chrgrp_len; if not full.all(): diff = numpy.where(full, numpy.inf, diff); ix = diff.argmin()`
+    with `+inf` a genuine extra value and `argmin` the left-to-right scan for the first minimum (`pickCapLit`) — picks
+    the index the model's `pickCap` picks (first minimal entry among the chromosomes with room; plain `argmin` when
+    all are full), and so does the whole loop, for every ideal vector, every marker counts, every start. -/
+theorem apportion_loop_literal_eq_closed_form (ideal : List α) (lens : List Nat) (k : Nat) (nb : List Nat)
+    (hlen : ideal.length = nb.length) :
+    greedyCap ideal lens k nb = greedyCapLit ideal lens k nb ∧
+    ∀ diff : List α, (fullMask nb lens).length ≤ diff.length → pickCap diff nb lens = pickCapLit diff nb lens :=
+  ⟨greedyCap_eq_lit ideal lens k nb hlen, fun diff hd => pickCap_eq_lit diff nb lens hd⟩
 
 /-- a request is refused exactly when it is below the chromosome count: every total between the
     chromosome count and the marker count (and beyond) is accepted by `nhaploblk_chrom` -/
 theorem request_refused_iff (n : Nat) (chroms : List (List α)) :
-    (∃ e, nhaploblkChrom n chroms = .error e) ↔ n < chroms.length := by
-  unfold nhaploblkChrom
-  rw [nhaploblkChromOfLen_error_iff, genlen_length]
+    (∃ e, nhaploblkChrom n chroms = .error e) ↔ n < chroms.length :=
+  nhaploblkChrom_error_iff n chroms
 
 /-- the chromosome slices `genpos[stix[i]:spix[i]]` of a layout whose chromosomes tile the markers
     (`stix = 0 :: B`, `spix = B ++ [p]`, `0 ≤ b₁ ≤ … ≤ p = len(genpos)`) concatenate to `genpos`: the
@@ -77,39 +98,63 @@ theorem exact_linspace_ok (nblk : List Nat) (chroms : List (List α)) (hlen : nb
     List.Forall₂ BoundsOK (hbounds nblk chroms) chroms ∧ nbins (hbounds nblk chroms) = nblk.sum :=
   hbounds_ok nblk chroms hlen hpos hv.2
 
-/-- **`bin_total`.**  The painting loop (later bins overwrite) leaves no marker unlabelled: every cell of
-    the `numpy.empty` label array is written, with the label `k + #{interior boundaries ≤ position}`;
+/-- **`bin_total`.**  Neither the painting loop (later bins overwrite) nor the equal-count fallback leaves a marker
+    unlabelled: every cell of the `numpy.empty` label array is written, with the closed-form label `relabelAll`;
     there is one label per marker. -/
 theorem bin_total {β : Type} [LinearOrder β] (hbs chroms : List (List β))
     (h : List.Forall₂ BoundsOK hbs chroms) :
-    haplobinHB hbs chroms 0 = (labelsAll hbs chroms 0).map some ∧
-      (labelsAll hbs chroms 0).length = (chroms.map List.length).sum :=
-  ⟨haplobinHB_eq_labels hbs chroms 0 h, labelsAll_length hbs chroms 0 h⟩
+    haplobinHB hbs chroms 0 = (relabelAll hbs chroms 0).map some ∧
+      (relabelAll hbs chroms 0).length = (chroms.map List.length).sum :=
+  ⟨haplobinHB_eq_relabel hbs chroms 0 h, relabelAll_length hbs chroms 0 h⟩
 
-/-- a marker exactly on an interior boundary belongs to the LATER bin (`≤` in the count) -/
+/-- the closed form of the labels of one chromosome: equal-width label `k + #{interior boundaries ≤ x}` (a marker
+    exactly on an interior boundary belongs to the LATER bin: `≤` in the count), replaced for the whole chromosome
+    by the equal-count label `k + (i · nhap) / m` of marker number `i` when the `nhap ≤ m` labels were not all used -/
 theorem label_closed_form {β : Type} [LinearOrder β] (hb : List β) (k : Nat) (pos : List β) :
-    labelsChrom hb k pos = pos.map (fun x => k + (hb.tail.dropLast).countP (fun b => decide (b ≤ x))) := rfl
+    labelsChrom hb k pos = pos.map (fun x => k + (hb.tail.dropLast).countP (fun b => decide (b ≤ x))) ∧
+    relabelChrom hb k pos =
+      (if hb.length - 1 ≤ pos.length ∧ ndistinct (labelsChrom hb k pos) < hb.length - 1
+       then (List.range pos.length).map (fun i => k + i * (hb.length - 1) / pos.length)
+       else labelsChrom hb k pos) :=
+  ⟨rfl, rfl⟩
+
+/-- the equal-width labels are what `haplobin` returns wherever every equal-width bin holds a marker, and wherever
+    a chromosome has fewer markers than bins (direct call outside the property's quantifier) -/
+theorem equal_width_kept {β : Type} [LinearOrder β] (hb pos : List β) (k : Nat) (hok : BoundsOK hb pos) :
+    (BinsFilled hb pos → relabelChrom hb k pos = labelsChrom hb k pos) ∧
+    (pos.length < hb.length - 1 → relabelChrom hb k pos = labelsChrom hb k pos) :=
+  ⟨relabelChrom_of_filled hb pos k hok, relabelChrom_of_short hb pos k⟩
 
 /-- **`bin_monotone`.**  Labels never decrease along the genome (blocks are ordered and contiguous). -/
 theorem bin_monotone {β : Type} [LinearOrder β] (hbs chroms : List (List β))
     (h : List.Forall₂ BoundsOK hbs chroms) (hp : ∀ c ∈ chroms, c.Pairwise (· ≤ ·)) :
-    (labelsAll hbs chroms 0).Pairwise (· ≤ ·) :=
-  labelsAll_sorted hbs chroms 0 h hp
+    (relabelAll hbs chroms 0).Pairwise (· ≤ ·) :=
+  relabelAll_sorted hbs chroms 0 h hp
 
 /-- **`bin_ranges_disjoint_across_chrom`.**  The first chromosome's labels lie in `[k, k + nb)`, all
     later chromosomes' labels in `[k + nb, k + total)`: no label is shared between chromosomes. -/
 theorem bin_ranges_disjoint_across_chrom {β : Type} [LinearOrder β] (hb pos : List β) (hbs cs : List (List β))
     (k : Nat) (h : List.Forall₂ BoundsOK (hb :: hbs) (pos :: cs)) :
-    labelsAll (hb :: hbs) (pos :: cs) k = labelsChrom hb k pos ++ labelsAll hbs cs (k + (hb.length - 1)) ∧
-    (∀ l ∈ labelsChrom hb k pos, k ≤ l ∧ l < k + (hb.length - 1)) ∧
-    (∀ l ∈ labelsAll hbs cs (k + (hb.length - 1)), k + (hb.length - 1) ≤ l ∧ l < k + nbins (hb :: hbs)) := by
+    relabelAll (hb :: hbs) (pos :: cs) k = relabelChrom hb k pos ++ relabelAll hbs cs (k + (hb.length - 1)) ∧
+    (∀ l ∈ relabelChrom hb k pos, k ≤ l ∧ l < k + (hb.length - 1)) ∧
+    (∀ l ∈ relabelAll hbs cs (k + (hb.length - 1)), k + (hb.length - 1) ≤ l ∧ l < k + nbins (hb :: hbs)) := by
   cases h with
   | cons h1 h2 =>
-    refine ⟨rfl, labelsChrom_lt hb k pos h1.two, ?_⟩
+    refine ⟨rfl, relabelChrom_lt hb k pos h1.two, ?_⟩
     intro l hl
-    have := labelsAll_range hbs cs (k + (hb.length - 1)) h2 l hl
+    have := relabelAll_range hbs cs (k + (hb.length - 1)) h2 l hl
     simp only [nbins, List.map_cons, List.sum_cons] at this ⊢
     omega
+
+/-- **every label is used.**  When no chromosome is given more bins than it has markers, every label
+    `0, …, nbins - 1` occurs: no requested block is lost (the defect D10 of the code before the repair). -/
+theorem every_label_used {β : Type} [LinearOrder β] (hbs chroms : List (List β))
+    (h : List.Forall₂ BoundsOK hbs chroms) (hp : ∀ c ∈ chroms, c.Pairwise (· ≤ ·))
+    (hcap : List.Forall₂ (fun hb (c : List β) => hb.length - 1 ≤ c.length) hbs chroms) :
+    ∀ j, j < nbins hbs → j ∈ relabelAll hbs chroms 0 := by
+  intro j hj
+  have := (relabelAll_good hbs chroms 0 h hp hcap).surj j hj
+  simpa using this
 
 /-! ### 2b. `linspace` in rounded (floating-point) arithmetic
 
@@ -126,21 +171,33 @@ theorem rounded_linspace_ok (rnd : α → α) (hr : RoundOK rnd) (nblk : List Na
     List.Forall₂ BoundsOK (hboundsR rnd nblk chroms) chroms ∧ nbins (hboundsR rnd nblk chroms) = nblk.sum :=
   hboundsR_ok rnd hr nblk chroms hc hv.2
 
-/-- **`bin_total` / `bin_monotone` for every admissible rounding**: every marker is labelled, one label
-    each, labels non-decreasing along the genome and below the number of requested blocks -/
+/-- **`bin_total` / `bin_monotone` / requested total for every admissible rounding**: every marker is labelled, one
+    label each, labels non-decreasing along the genome and below the number of requested blocks; and when no
+    chromosome is given more bins than markers, every label is used and the labels form exactly `Σ nblk` blocks —
+    whatever the rounding does to the boundaries (clustered positions, markers on rounded boundaries included) -/
 theorem bin_total_monotone_rounded (rnd : α → α) (hr : RoundOK rnd) (nblk : List Nat) (chroms : List (List α))
     (hc : List.Forall₂ (ChromRoundOK rnd) nblk chroms) (hv : ValidChroms chroms) :
     ∃ L : List Nat, haplobinR rnd nblk chroms = L.map some ∧ L.length = (chroms.map List.length).sum ∧
       L.Pairwise (· ≤ ·) ∧ (∀ l ∈ L, l < nblk.sum) ∧
-      (nruns L = nblk.sum ↔ List.Forall₂ BinsFilled (hboundsR rnd nblk chroms) chroms) := by
+      (List.Forall₂ (fun (n : Nat) (c : List α) => n ≤ c.length) nblk chroms →
+        nruns L = nblk.sum ∧ ∀ j, j < nblk.sum → j ∈ L) := by
   obtain ⟨hok, hnb⟩ := hboundsR_ok rnd hr nblk chroms hc hv.2
   have hp : ∀ c ∈ chroms, c.Pairwise (· ≤ ·) := fun c hcm => (hv.2 c hcm).2
-  refine ⟨labelsAll (hboundsR rnd nblk chroms) chroms 0, haplobinHB_eq_labels _ _ 0 hok,
-    labelsAll_length _ _ 0 hok, labelsAll_sorted _ _ 0 hok hp, ?_, ?_⟩
+  refine ⟨relabelAll (hboundsR rnd nblk chroms) chroms 0, haplobinHB_eq_relabel _ _ 0 hok,
+    relabelAll_length _ _ 0 hok, relabelAll_sorted _ _ 0 hok hp, ?_, ?_⟩
   · intro l hl
-    have := (labelsAll_range _ _ 0 hok l hl).2
+    have := (relabelAll_range _ _ 0 hok l hl).2
     omega
-  · rw [← hnb]; exact nruns_eq_nbins_iff _ chroms hok hp
+  · intro hfit
+    have hpos : ∀ n ∈ nblk, 1 ≤ n := forall₂_left _ _ _ _ hc (fun _ _ h => h.1)
+    have hcap := cap_of_zipWith (fun n c => linspaceR rnd (c.headD 0) (c.getLastD 0) n)
+      (fun n c hn => linspaceR_length rnd _ _ n hn) nblk chroms hpos hfit
+    have hcap' : List.Forall₂ (fun hb (c : List α) => hb.length - 1 ≤ c.length) (hboundsR rnd nblk chroms) chroms := hcap
+    refine ⟨by rw [← hnb]; exact nruns_relabelAll_eq _ chroms hok hp hcap', ?_⟩
+    intro j hj
+    rw [← hnb] at hj
+    have := (relabelAll_good _ chroms 0 hok hp hcap').surj j hj
+    simpa using this
 
 /-- **the no-overshoot clause follows from the standard floating-point model.**  For every rounding that is
     monotone, fixes 0, errs upwards by at most a relative `e ≤ 1/4` on non-negative numbers (`RelUp`: round to
@@ -155,15 +212,17 @@ theorem rounded_linspace_no_overshoot (rnd : α → α) (hr : RoundOK rnd) (e : 
   ⟨chromRoundOK_of_relUp rnd hr e h0 h1 hrel n hn hne c hs hfirst hlast,
    pointR_last_le rnd hr e h0 h1 hrel _ _ hs hlast n hn hne⟩
 
-/-- **`bin_total` / `bin_monotone` under the floating-point model** (no per-layout side condition left): for every
-    valid layout whose chromosome end points are representable and every apportionment with at most `1/(4e)` bins
-    per chromosome, the labels computed with rounded `linspace` are total, one per marker, sorted and `< Σ nblk`. -/
+/-- **`bin_total` / `bin_monotone` / requested total under the floating-point model** (no per-layout side condition
+    left): for every valid layout whose chromosome end points are representable and every apportionment with at most
+    `1/(4e)` bins per chromosome, the labels computed with rounded `linspace` are total, one per marker, sorted and
+    `< Σ nblk`; with no more bins than markers on any chromosome they form exactly `Σ nblk` blocks. -/
 theorem bin_total_monotone_float_model (rnd : α → α) (hr : RoundOK rnd) (e : α) (h0 : 0 ≤ e) (h1 : e ≤ 1 / 4)
     (hrel : RelUp rnd e) (nblk : List Nat) (chroms : List (List α)) (hv : ValidChroms chroms)
     (hc : List.Forall₂ (fun (n : Nat) (c : List α) => 1 ≤ n ∧ 4 * e * (n : α) ≤ 1 ∧ rnd (c.headD 0) = c.headD 0 ∧
       rnd (c.getLastD 0) = c.getLastD 0) nblk chroms) :
     ∃ L : List Nat, haplobinR rnd nblk chroms = L.map some ∧ L.length = (chroms.map List.length).sum ∧
-      L.Pairwise (· ≤ ·) ∧ (∀ l ∈ L, l < nblk.sum) := by
+      L.Pairwise (· ≤ ·) ∧ (∀ l ∈ L, l < nblk.sum) ∧
+      (List.Forall₂ (fun (n : Nat) (c : List α) => n ≤ c.length) nblk chroms → nruns L = nblk.sum) := by
   have hc' : List.Forall₂ (ChromRoundOK rnd) nblk chroms := by
     have hv2 := hv.2
     clear hv
@@ -178,11 +237,11 @@ theorem bin_total_monotone_float_model (rnd : α → α) (hr : RoundOK rnd) (e :
         | nil => exact absurd rfl hcne
         | cons a t => simpa using sorted_le_getLastD a t 0 hcs a List.mem_cons_self
       exact chromRoundOK_of_relUp rnd hr e h0 h1 hrel n hn hne c hs hf hl
-  obtain ⟨L, h1', h2', h3', h4', _⟩ := bin_total_monotone_rounded rnd hr nblk chroms hc' hv
-  exact ⟨L, h1', h2', h3', h4'⟩
+  obtain ⟨L, h1', h2', h3', h4', h5'⟩ := bin_total_monotone_rounded rnd hr nblk chroms hc' hv
+  exact ⟨L, h1', h2', h3', h4', fun hfit => (h5' hfit).1⟩
 
 /-- **boundary ties.**  With strictly increasing boundaries the marker sitting exactly on the interior boundary
-    `hb[j]` gets label `k + j`, i.e. it is put in the LATER of the two closed bins `[hb[j-1], hb[j]]`,
+    `hb[j]` gets the equal-width label `k + j`, i.e. it is put in the LATER of the two closed bins `[hb[j-1], hb[j]]`,
     `[hb[j], hb[j+1]]` that contain it (later bins overwrite) -/
 theorem boundary_marker_goes_to_later_bin {β : Type} [LinearOrder β] (hb : List β) (k j : Nat) (h1 : 1 ≤ j)
     (h2 : j + 1 < hb.length) (hs : hb.Pairwise (· < ·)) :
@@ -223,52 +282,123 @@ theorem bounds_error_iff {β : Type} [DecidableEq β] (l : List β) :
   | nil => simp [haplobinBounds]
   | cons a xs => simp [haplobinBounds_eq]
 
-/-- **blocks stay within chromosomes, every chromosome gets at least one.**  The genome-wide number of
-    blocks is the sum over chromosomes of the number of blocks formed by that chromosome's own labels;
-    each of these is ≥ 1 and ≤ the number of bins given to the chromosome. -/
+/-- **blocks stay within chromosomes, every chromosome gets at least one — and exactly its allotment.**  The
+    genome-wide number of blocks is the sum over chromosomes of the number of blocks formed by that chromosome's own
+    labels; each of these is ≥ 1 and ≤ the number of bins given to the chromosome, and EQUAL to it whenever no
+    chromosome is given more bins than it has markers. -/
 theorem blocks_within_chromosomes {β : Type} [LinearOrder β] (hbs chroms : List (List β))
     (h : List.Forall₂ BoundsOK hbs chroms) (hc : ∀ c ∈ chroms, c ≠ [] ∧ c.Pairwise (· ≤ ·)) :
-    nruns (labelsAll hbs chroms 0) = (runsPerChrom hbs chroms 0).sum ∧
-      List.Forall₂ (fun r hb => 1 ≤ r ∧ r ≤ hb.length - 1) (runsPerChrom hbs chroms 0) hbs :=
-  nruns_labelsAll hbs chroms 0 h hc
+    nruns (relabelAll hbs chroms 0) = (runsPerChromR hbs chroms 0).sum ∧
+      List.Forall₂ (fun r hb => 1 ≤ r ∧ r ≤ hb.length - 1) (runsPerChromR hbs chroms 0) hbs ∧
+      (List.Forall₂ (fun hb (c : List β) => hb.length - 1 ≤ c.length) hbs chroms →
+        runsPerChromR hbs chroms 0 = hbs.map (fun hb => hb.length - 1)) :=
+  nruns_relabelAll hbs chroms 0 h hc
 
-/-! ## 4. "uses exactly the requested total" — false as stated; exact characterisation -/
+/-! ## 4. "uses exactly the requested total" -/
 
-/-- never MORE blocks than requested (so the fill loop `hmat[:,:,j,i] = …` cannot run out of columns) -/
+/-- never MORE blocks than requested, for any bin counts (so the fill loop `hmat[:,:,j,i] = …` cannot run out of
+    columns) -/
 theorem runs_le_requested {β : Type} [LinearOrder β] (hbs chroms : List (List β))
     (h : List.Forall₂ BoundsOK hbs chroms) (hp : ∀ c ∈ chroms, c.Pairwise (· ≤ ·)) :
-    nruns (labelsAll hbs chroms 0) ≤ nbins hbs :=
-  nruns_le_nbins hbs chroms h hp
+    nruns (relabelAll hbs chroms 0) ≤ nbins hbs :=
+  nruns_relabelAll_le hbs chroms h hp
 
-/-- **the exact condition.**  The number of blocks produced equals the number requested if and only if
-    every equal-width bin `[hb[j], hb[j+1])` of every chromosome holds a marker. -/
-theorem requested_total_iff_bins_filled {β : Type} [LinearOrder β] (hbs chroms : List (List β))
+/-- … and exactly as many as requested when no chromosome is given more bins than it has markers — whatever the
+    positions (clustered, duplicated, on boundaries) and whatever the boundary vectors (exact or rounded) -/
+theorem runs_eq_requested {β : Type} [LinearOrder β] (hbs chroms : List (List β))
+    (h : List.Forall₂ BoundsOK hbs chroms) (hp : ∀ c ∈ chroms, c.Pairwise (· ≤ ·))
+    (hcap : List.Forall₂ (fun hb (c : List β) => hb.length - 1 ≤ c.length) hbs chroms) :
+    nruns (relabelAll hbs chroms 0) = nbins hbs :=
+  nruns_relabelAll_eq hbs chroms h hp hcap
+
+/-- **`uses_requested_total` — the FULL statement.**  For every valid layout (clustered positions that leave an
+    equal-width bin empty and markers exactly on a block boundary included) and every total between the chromosome
+    count and the marker count, the pipeline `nhaploblk_chrom` → guard → `haplobin` → `haplobin_bounds` accepts the
+    request and returns: one count per chromosome, each ≥ 1, at most the chromosome's marker count, summing to `n`;
+    one label per marker, labels sorted, inside `[0, n)` and every label used; hence exactly `n` blocks. -/
+theorem uses_requested_total (n : Nat) (chroms : List (List α)) (hv : ValidChroms chroms)
+    (hlo : chroms.length ≤ n) (hhi : n ≤ (chroms.map List.length).sum) :
+    ∃ nblk hbin bnds, blocksOf n chroms = .ok (nblk, hbin, bnds) ∧ bnds.length = n ∧
+      bnds = blockPairs hbin ∧
+      (nblk.length = chroms.length ∧ nblk.sum = n ∧ (∀ x ∈ nblk, 1 ≤ x) ∧
+        List.Forall₂ (· ≤ ·) nblk (chroms.map List.length)) ∧
+      (hbin.length = (chroms.map List.length).sum ∧ hbin.Pairwise (· ≤ ·) ∧
+        (∀ l ∈ hbin, l < n) ∧ ∀ j, j < n → j ∈ hbin) := by
+  obtain ⟨nblk, hbin, bnds, h1, h2, h3, h4, h5, h6⟩ := blocksOf_ok n chroms hv hlo hhi
+  refine ⟨nblk, hbin, bnds, h1, h2, h3, h4, h5, h6.sorted, ?_, ?_⟩
+  · intro l hl; have := (h6.range l hl).2; omega
+  · intro j hj; have := h6.surj j hj; simpa using this
+
+/-- **the partition, as one statement.**  Whatever the pipeline returns on a valid layout is: one block count per
+    chromosome, each ≥ 1 and ≤ the chromosome's marker count, summing to the request; one label per marker, the
+    labels non-decreasing along the genome; blocks `(0,b₁),(b₁,b₂),…,(b_k,p)` with `0 < b₁ < … < p`
+    (every marker in exactly one block, blocks contiguous and ordered); every chromosome start is a block start and
+    chromosome `i` holds exactly `nblk[i]` blocks (blocks within chromosomes, every chromosome at least one);
+    and the number of blocks is exactly the requested total. -/
+theorem pipeline_partition (n : Nat) (chroms : List (List α))
+    (hv : ValidChroms chroms) (nblk hbin : List Nat) (bnds : List (Nat × Nat))
+    (h : blocksOf n chroms = .ok (nblk, hbin, bnds)) :
+    (nblk.length = chroms.length ∧ nblk.sum = n ∧ (∀ x ∈ nblk, 1 ≤ x) ∧
+      List.Forall₂ (· ≤ ·) nblk (chroms.map List.length)) ∧
+    (hbin.length = (chroms.map List.length).sum ∧ hbin.Pairwise (· ≤ ·) ∧ ∀ l ∈ hbin, l < n) ∧
+    (∃ B : List Nat, bnds = List.zip (0 :: B) (B ++ [hbin.length]) ∧
+        (0 :: (B ++ [hbin.length])).Pairwise (· < ·) ∧ ∀ s ∈ chromStarts chroms 0, s ∈ 0 :: B) ∧
+    (bnds.length = (runsPerChromR (hbounds nblk chroms) chroms 0).sum ∧
+      runsPerChromR (hbounds nblk chroms) chroms 0 = nblk) ∧
+    bnds.length = n := by
+  obtain ⟨hlen, _⟩ := blocksOf_length n chroms hv nblk hbin bnds h
+  obtain ⟨hnb, rfl, rfl, hok, hnbins, hfit, hcap⟩ := blocksOf_stages n chroms hv nblk hbin bnds h
+  have hp : ∀ c ∈ chroms, c.Pairwise (· ≤ ·) := fun c hc => (hv.2 c hc).2
+  obtain ⟨hl, hsum, hpos⟩ := blocks_sum n chroms hv.1 nblk hnb
+  obtain ⟨hr1, _, hr3⟩ := nruns_relabelAll _ chroms 0 hok hv.2
+  refine ⟨⟨hl, hsum, hpos, hfit⟩, ⟨relabelAll_length _ chroms 0 hok, relabelAll_sorted _ chroms 0 hok hp, ?_⟩,
+    ?_, ⟨?_, ?_⟩, hlen⟩
+  · intro l hl'
+    have := (relabelAll_range _ chroms 0 hok l hl').2
+    omega
+  · have hlne := relabelAll_ne_nil (hbounds nblk chroms) chroms 0 hok hv.1 (fun c hc => (hv.2 c hc).1)
+    cases hL : relabelAll (hbounds nblk chroms) chroms 0 with
+    | nil => exact absurd hL hlne
+    | cons a xs =>
+      refine ⟨breaksFrom a 1 xs, rfl, starts_chain a xs, ?_⟩
+      have := withinChrom_sound_relabel _ chroms hok hv.1 (fun c hc => (hv.2 c hc).1) a xs hL
+      simpa [Spec.withinChrom] using this
+  · rw [blockPairs_length]; exact hr1
+  · rw [hr3 hcap]; exact hbounds_lens nblk chroms hl hpos
+
+/-- the pipeline refuses — always with the tag `"value"` — exactly the totals below the chromosome count or above
+    the marker count: no marker is ever left unlabelled and the fill loop never indexes past the last block column
+    (the two internal error branches of the model are dead code) -/
+theorem pipeline_errors_are_refusals (n : Nat) (chroms : List (List α)) (hv : ValidChroms chroms) :
+    ((∃ e, blocksOf n chroms = .error e) ↔ (n < chroms.length ∨ (chroms.map List.length).sum < n)) ∧
+    ∀ e, blocksOf n chroms = .error e → e = "value" :=
+  blocksOf_error_iff n chroms hv
+
+/-! ### 4b. the code before the repair (defect D10): what was wrong, exactly
+
+`…Prerepair` is the model of haplo.py before the `fix:` commit.  Its labels are the equal-width labels `labelsAll`
+for every layout; the theorems below characterise when it lost blocks, and the counterexamples show the loss. -/
+
+/-- the labels of the code before the repair: equal-width labels on every chromosome, no fallback -/
+theorem labels_prerepair {β : Type} [LinearOrder β] (hbs chroms : List (List β))
+    (h : List.Forall₂ BoundsOK hbs chroms) :
+    haplobinHBPrerepair hbs chroms 0 = (labelsAll hbs chroms 0).map some :=
+  haplobinHBPrerepair_eq_labels hbs chroms 0 h
+
+/-- **the exact condition.**  Before the repair the number of blocks produced equalled the number requested if and
+    only if every equal-width bin `[hb[j], hb[j+1])` of every chromosome held a marker. -/
+theorem requested_total_iff_bins_filled_prerepair {β : Type} [LinearOrder β] (hbs chroms : List (List β))
     (h : List.Forall₂ BoundsOK hbs chroms) (hp : ∀ c ∈ chroms, c.Pairwise (· ≤ ·)) :
     nruns (labelsAll hbs chroms 0) = nbins hbs ↔ List.Forall₂ BinsFilled hbs chroms :=
   nruns_eq_nbins_iff hbs chroms h hp
 
-/- FULL STATEMENT (false of the as-is model, see `empty_bin_counterexample`):
-   theorem uses_requested_total (n : Nat) (chroms : List (List α)) (hv : ValidChroms chroms)
-       (hn : chroms.length ≤ n) (hm : n ≤ (chroms.map List.length).sum) :
-       ∃ nblk hbin bnds, blocksOf n chroms true = .ok (nblk, hbin, bnds) ∧ bnds.length = n
--/
-/-- the pipeline (`nhaploblk_chrom` → `haplobin` → `haplobin_bounds`) produces exactly the requested
-    number of blocks PROVIDED every equal-width bin of every chromosome holds a marker -/
-theorem uses_requested_total_partial (n : Nat) (chroms : List (List α)) (guard : Bool)
+/-- before the repair the pipeline returned a well-formed partition with at most `n` blocks, and FEWER than
+    requested exactly when some equal-width bin was empty -/
+theorem fewer_blocks_iff_empty_bin_prerepair (n : Nat) (chroms : List (List α)) (guard : Bool)
     (hv : ValidChroms chroms) (nblk hbin : List Nat) (bnds : List (Nat × Nat))
-    (h : blocksOf n chroms guard = .ok (nblk, hbin, bnds))
-    (hfill : List.Forall₂ BinsFilled (hbounds nblk chroms) chroms) :
-    bnds.length = n := by
-  obtain ⟨_, rfl, rfl, hok, hnb⟩ := blocksOf_ok n chroms guard hv nblk hbin bnds h
-  rw [blockPairs_length, (nruns_eq_nbins_iff _ chroms hok (fun c hc => (hv.2 c hc).2)).mpr hfill, hnb]
-
-/-- without that proviso the pipeline still returns a well-formed partition with at most `n` blocks, and
-    it produces FEWER than requested exactly when some equal-width bin is empty -/
-theorem fewer_blocks_iff_empty_bin (n : Nat) (chroms : List (List α)) (guard : Bool)
-    (hv : ValidChroms chroms) (nblk hbin : List Nat) (bnds : List (Nat × Nat))
-    (h : blocksOf n chroms guard = .ok (nblk, hbin, bnds)) :
+    (h : blocksOfPrerepair n chroms guard = .ok (nblk, hbin, bnds)) :
     bnds.length ≤ n ∧ (bnds.length < n ↔ ¬ List.Forall₂ BinsFilled (hbounds nblk chroms) chroms) := by
-  obtain ⟨_, rfl, rfl, hok, hnb⟩ := blocksOf_ok n chroms guard hv nblk hbin bnds h
+  obtain ⟨_, rfl, rfl, hok, hnb⟩ := blocksOfPrerepair_ok n chroms guard hv nblk hbin bnds h
   have hp : ∀ c ∈ chroms, c.Pairwise (· ≤ ·) := fun c hc => (hv.2 c hc).2
   have hle := nruns_le_nbins _ chroms hok hp
   have hiff := nruns_eq_nbins_iff _ chroms hok hp
@@ -278,27 +408,19 @@ theorem fewer_blocks_iff_empty_bin (n : Nat) (chroms : List (List α)) (guard : 
   rw [← hiff]
   omega
 
-/-- **exact block count of the as-is code.**  The number of blocks is the number of equal-width bins
-    `[hb[j], hb[j+1])` (last bin of a chromosome closed) that hold at least one marker, summed over the
-    chromosomes (`filledAll`, a decidable count on the input). -/
-theorem blocks_eq_nonempty_bins {β : Type} [LinearOrder β] (hbs chroms : List (List β))
-    (h : List.Forall₂ BoundsOK hbs chroms) (hc : ∀ c ∈ chroms, c ≠ [] ∧ c.Pairwise (· ≤ ·)) :
-    nruns (labelsAll hbs chroms 0) = filledAll hbs chroms :=
-  nruns_eq_filledAll hbs chroms h hc
-
-/-- … for the pipeline, and **which columns of the haplotype matrix stay unwritten**: with
-    `k = filledAll …` non-empty bins the pipeline returns exactly `k ≤ n` blocks, and in every fibre (phase,
-    individual, trait) column `j` holds the value of the `j`-th block for `j < k` and is never written for
-    `k ≤ j < n` — the uninitialised columns are exactly the last `n - k` ones, whatever the data. -/
-theorem unwritten_columns (n : Nat) (chroms : List (List α)) (guard : Bool)
+/-- **which columns of the haplotype matrix stayed unwritten before the repair**: with `k` = the number of non-empty
+    equal-width bins (`filledAll`, a decidable count on the input) the pipeline returned exactly `k ≤ n` blocks, and in
+    every fibre (phase, individual, trait) column `j` held the value of the `j`-th block for `j < k` and was never
+    written for `k ≤ j < n` — the uninitialised columns were exactly the last `n - k` ones, whatever the data. -/
+theorem unwritten_columns_prerepair (n : Nat) (chroms : List (List α)) (guard : Bool)
     (hv : ValidChroms chroms) (nblk hbin : List Nat) (bnds : List (Nat × Nat))
-    (h : blocksOf n chroms guard = .ok (nblk, hbin, bnds)) (g u : List α) :
+    (h : blocksOfPrerepair n chroms guard = .ok (nblk, hbin, bnds)) (g u : List α) :
     bnds.length = filledAll (hbounds nblk chroms) chroms ∧ bnds.length ≤ n ∧
     (hmatFibre n bnds g u).length = n ∧
     ∀ j, (hmatFibre n bnds g u)[j]? =
       if hj : j < bnds.length then some (some (blockVal g u bnds[j]))
       else if j < n then some none else none := by
-  obtain ⟨_, rfl, rfl, hok, hnb⟩ := blocksOf_ok n chroms guard hv nblk hbin bnds h
+  obtain ⟨_, rfl, rfl, hok, hnb⟩ := blocksOfPrerepair_ok n chroms guard hv nblk hbin bnds h
   have hle : (blockPairs (labelsAll (hbounds nblk chroms) chroms 0)).length ≤ n := by
     rw [blockPairs_length]
     have := nruns_le_nbins _ chroms hok (fun c hc => (hv.2 c hc).2)
@@ -308,65 +430,25 @@ theorem unwritten_columns (n : Nat) (chroms : List (List α)) (guard : Bool)
   exact nruns_eq_filledAll _ chroms hok hv.2
 
 /-- the marker-count guard of `haplomat` / `_calc_haplomat` (more blocks than markers on a chromosome ⇒
-    raise) only ever refuses layouts that have an empty equal-width bin (pigeonhole): a refusal by the
-    guard is an instance of the same defect, not a different one -/
+    raise) only ever refused layouts with an empty equal-width bin (pigeonhole): a refusal by the guard was an
+    instance of the same defect, not a different one -/
 theorem guard_refusal_implies_empty_bin {β : Type} [LinearOrder β] (hb pos : List β) (hok : BoundsOK hb pos)
     (hguard : pos.length < hb.length - 1) : ¬ BinsFilled hb pos := by
   intro hf
   have := binsFilled_length_le hb pos hok hf
   omega
 
-/-- **the partition, as one statement.**  Whenever the pipeline accepts a request on a valid layout it
-    returns: one block count per chromosome, each ≥ 1, summing to the request; one label per marker, the
-    labels non-decreasing along the genome; blocks `(0,b₁),(b₁,b₂),…,(b_k,p)` with `0 < b₁ < … < p`
-    (every marker in exactly one block, blocks contiguous and ordered); the number of blocks is the sum
-    over chromosomes of per-chromosome block numbers, each between 1 and the chromosome's allotment
-    (blocks within chromosomes, every chromosome at least one); and at most the requested total. -/
-theorem pipeline_partition (n : Nat) (chroms : List (List α)) (guard : Bool)
-    (hv : ValidChroms chroms) (nblk hbin : List Nat) (bnds : List (Nat × Nat))
-    (h : blocksOf n chroms guard = .ok (nblk, hbin, bnds)) :
-    (nblk.length = chroms.length ∧ nblk.sum = n ∧ ∀ x ∈ nblk, 1 ≤ x) ∧
-    (hbin.length = (chroms.map List.length).sum ∧ hbin.Pairwise (· ≤ ·) ∧ ∀ l ∈ hbin, l < n) ∧
-    (∃ B : List Nat, bnds = List.zip (0 :: B) (B ++ [hbin.length]) ∧
-        (0 :: (B ++ [hbin.length])).Pairwise (· < ·)) ∧
-    (bnds.length = (runsPerChrom (hbounds nblk chroms) chroms 0).sum ∧
-      List.Forall₂ (fun r hb => 1 ≤ r ∧ r ≤ hb.length - 1) (runsPerChrom (hbounds nblk chroms) chroms 0)
-        (hbounds nblk chroms)) ∧
-    bnds.length ≤ n := by
-  obtain ⟨hnb, rfl, rfl, hok, hnbins⟩ := blocksOf_ok n chroms guard hv nblk hbin bnds h
-  have hp : ∀ c ∈ chroms, c.Pairwise (· ≤ ·) := fun c hc => (hv.2 c hc).2
-  refine ⟨blocks_sum n chroms hv.1 nblk hnb, ⟨labelsAll_length _ chroms 0 hok, labelsAll_sorted _ chroms 0 hok hp, ?_⟩,
-    ?_, ?_, ?_⟩
-  · intro l hl
-    have := (labelsAll_range _ chroms 0 hok l hl).2
-    omega
-  · have hlne := labelsAll_ne_nil (hbounds nblk chroms) chroms 0 hok hv.1 (fun c hc => (hv.2 c hc).1)
-    cases hl : labelsAll (hbounds nblk chroms) chroms 0 with
-    | nil => exact absurd hl hlne
-    | cons a xs => exact ⟨breaksFrom a 1 xs, rfl, starts_chain a xs⟩
-  · rw [blockPairs_length]
-    exact nruns_labelsAll _ chroms 0 hok hv.2
-  · rw [blockPairs_length]
-    have := nruns_le_nbins _ chroms hok hp
-    omega
-
-/-- the only way the model pipeline fails is by refusing the request (`"value"`: fewer blocks than
-    chromosomes, or the marker-count guard): no marker is ever left unlabelled and the fill loop never
-    indexes past the last block column -/
-theorem pipeline_errors_are_refusals (n : Nat) (chroms : List (List α)) (guard : Bool)
-    (hv : ValidChroms chroms) (e : String) (h : blocksOf n chroms guard = .error e) : e = "value" :=
-  blocksOf_error n chroms guard hv e h
-
-/-- **D10.**  Positions (0, 0.01, 0.02, 1) on one chromosome, 4 blocks requested (4 markers): the
-    three clustered markers leave the equal-width bins [0.25,0.5) and [0.5,0.75) empty, two blocks are
-    produced, block columns 2 and 3 of the haplotype matrix are never written, and the optimal haploid
-    value of every cross reads uninitialised memory. -/
-theorem empty_bin_counterexample :
-    blocksOf (α := ℚ) 4 [[0, 1/100, 2/100, 1]] true = .ok ([4], [0, 0, 0, 3], [(0, 3), (3, 4)]) ∧
+/-- **D10 (before the repair).**  Positions (0, 0.01, 0.02, 1) on one chromosome, 4 blocks requested (4 markers):
+    the three clustered markers leave the equal-width bins [0.25,0.5) and [0.5,0.75) empty, two blocks were
+    produced, block columns 2 and 3 of the haplotype matrix were never written, and the optimal haploid
+    value of every cross read uninitialised memory.  The repaired pipeline returns the four blocks. -/
+theorem empty_bin_prerepair_counterexample :
+    blocksOfPrerepair (α := ℚ) 4 [[0, 1/100, 2/100, 1]] true = .ok ([4], [0, 0, 0, 3], [(0, 3), (3, 4)]) ∧
     hmatFibre (α := ℚ) 4 [(0, 3), (3, 4)] [1, 0, 1, 1] [1, 2, 4, 8] = [some 5, some 8, none, none] ∧
     traitValues (haplomat (α := ℚ) 4 [(0, 3), (3, 4)] [[[1, 0, 1, 1], [0, 1, 1, 0]]] [[1, 2, 4, 8]]) 0 = none ∧
-    ¬ BinsFilled (linspace (0 : ℚ) 1 4) [0, 1/100, 2/100, 1] := by
-  refine ⟨by decide +kernel, by decide +kernel, by decide +kernel, ?_⟩
+    ¬ BinsFilled (linspace (0 : ℚ) 1 4) [0, 1/100, 2/100, 1] ∧
+    blocksOf (α := ℚ) 4 [[0, 1/100, 2/100, 1]] = .ok ([4], [0, 1, 2, 3], [(0, 1), (1, 2), (2, 3), (3, 4)]) := by
+  refine ⟨by decide +kernel, by decide +kernel, by decide +kernel, ?_, by decide +kernel⟩
   intro hf
   obtain ⟨x, hx, h1, h2⟩ := hf 1 (by decide +kernel)
   have hb : (linspace (0 : ℚ) 1 4)[1]'(by decide +kernel) = 1/4 := by decide +kernel
@@ -381,31 +463,22 @@ theorem empty_bin_counterexample :
   · norm_num at h1
   · norm_num at h2'
 
-/-- a bin can also stay unused although a marker touches it: (0, 2, 3, 4) in 4 bins — the only marker
-    of bin [1,2] sits on its upper boundary and is claimed by the next bin -/
-theorem boundary_marker_counterexample :
-    blocksOf (α := ℚ) 4 [[0, 2, 3, 4]] true = .ok ([4], [0, 2, 3, 3], [(0, 1), (1, 2), (2, 4)]) := by
-  decide +kernel
+/-- a bin could also stay unused although a marker touched it: (0, 2, 3, 4) in 4 bins — the only marker
+    of bin [1,2] sits on its upper boundary and is claimed by the next bin (3 blocks before the repair, 4 after) -/
+theorem boundary_marker_prerepair_counterexample :
+    blocksOfPrerepair (α := ℚ) 4 [[0, 2, 3, 4]] true = .ok ([4], [0, 2, 3, 3], [(0, 1), (1, 2), (2, 4)]) ∧
+    blocksOf (α := ℚ) 4 [[0, 2, 3, 4]] = .ok ([4], [0, 1, 2, 3], [(0, 1), (1, 2), (2, 3), (3, 4)]) := by
+  constructor <;> decide +kernel
 
-/-- **the proposed repair meets the FULL statement** (model of the tree with patch_D10.diff applied,
-    Model/Haplo.lean §7; correspondence with the patched tree checked by `C18_VARIANT=patched ./check C18`).
-    For every valid layout and every total between the chromosome count and the marker count the patched
-    pipeline accepts the request and returns: one count per chromosome, each ≥ 1, at most the chromosome's
-    marker count, summing to `n`; one label per marker, labels sorted, inside `[0, n)` and every label used;
-    hence exactly `n` blocks — all block columns of the haplotype matrix are written
-    (`haplomat_finite_partial` applies) and §5–§6 hold without proviso. -/
-theorem patched_uses_requested_total (n : Nat) (chroms : List (List α)) (hv : ValidChroms chroms)
-    (hlo : chroms.length ≤ n) (hhi : n ≤ (chroms.map List.length).sum) :
-    ∃ nblk hbin bnds, blocksOfFixed n chroms = .ok (nblk, hbin, bnds) ∧ bnds.length = n ∧
-      bnds = blockPairs hbin ∧
-      (nblk.length = chroms.length ∧ nblk.sum = n ∧ (∀ x ∈ nblk, 1 ≤ x) ∧
-        List.Forall₂ (· ≤ ·) nblk (chroms.map List.length)) ∧
-      (hbin.length = (chroms.map List.length).sum ∧ hbin.Pairwise (· ≤ ·) ∧
-        (∀ l ∈ hbin, l < n) ∧ ∀ j, j < n → j ∈ hbin) := by
-  obtain ⟨nblk, hbin, bnds, h1, h2, h3, h4, h5, h6⟩ := blocksOfFixed_ok n chroms hv hlo hhi
-  refine ⟨nblk, hbin, bnds, h1, h2, h3, h4, h5, h6.sorted, ?_, ?_⟩
-  · intro l hl; have := (h6.range l hl).2; omega
-  · intro j hj; have := h6.surj j hj; simpa using this
+/-- before the repair the greedy apportionment could also give a chromosome more blocks than markers, so that the
+    marker-count guard refused a total inside the property's quantifier (2 far-apart markers next to 4 close ones,
+    5 blocks for 6 markers); the repaired loop skips the full chromosome -/
+theorem guard_refusal_prerepair_counterexample :
+    nhaploblkChromPrerepair (α := ℚ) 5 [[0, 100], [0, 1, 2, 3]] = .ok [4, 1] ∧
+    blocksOfPrerepair (α := ℚ) 5 [[0, 100], [0, 1, 2, 3]] true = .error "value" ∧
+    blocksOf (α := ℚ) 5 [[0, 100], [0, 1, 2, 3]]
+      = .ok ([2, 3], [0, 1, 2, 3, 4, 4], [(0, 1), (1, 2), (2, 3), (3, 4), (4, 6)]) := by
+  refine ⟨by decide +kernel, by decide +kernel, by decide +kernel⟩
 
 /-! ## 5. conservation of value over the blocks actually produced -/
 
@@ -432,15 +505,19 @@ theorem value_conserved {β : Type} [DecidableEq β] (l : List β) (hne : l ≠ 
       rw [this]; exact slice_zero_length u
     rw [e1, e2]
 
-/- FULL STATEMENT (false of the as-is model, see `empty_bin_counterexample`):
-   the `nhaploblk` cells of every fibre of the haplotype matrix sum to `g·u`.  -/
-/-- all `n` cells of a fibre of the haplotype matrix are written and sum to the copy's value PROVIDED the
-    number of blocks equals the number of columns (⇔ every bin filled, `requested_total_iff_bins_filled`) -/
-theorem hmat_fibre_conserved_partial {β : Type} [DecidableEq β] (l : List β) (hne : l ≠ []) (g u : List α)
-    (hg : g.length = l.length) (hu : u.length = l.length) (n : Nat) (hn : nruns l = n) :
-    ∃ cells, allSome (hmatFibre n (blockPairs l) g u) = some cells ∧ cells.length = n ∧ cells.sum = Np.dot g u := by
-  refine ⟨(blockPairs l).map (blockVal g u), ?_, by simp [blockPairs_length, hn], value_conserved l hne g u hg hu⟩
-  rw [allSome_hmatFibre n _ g u (by rw [blockPairs_length, hn]), if_pos (by rw [blockPairs_length, hn])]
+/-- **value is conserved over the `nhaploblk` columns of the haplotype matrix.**  Whatever the pipeline returns on a
+    valid layout, all `n` cells of every fibre (phase, individual, trait) of the haplotype matrix are written and
+    they sum to the chromosome copy's total additive value `g·u`. -/
+theorem hmat_fibre_conserved (n : Nat) (chroms : List (List α)) (hv : ValidChroms chroms)
+    (nblk hbin : List Nat) (bnds : List (Nat × Nat)) (h : blocksOf n chroms = .ok (nblk, hbin, bnds))
+    (g u : List α) (hg : g.length = hbin.length) (hu : u.length = hbin.length) :
+    ∃ cells, allSome (hmatFibre n bnds g u) = some cells ∧ cells.length = n ∧ cells.sum = Np.dot g u := by
+  obtain ⟨hlen, hruns⟩ := blocksOf_length n chroms hv nblk hbin bnds h
+  obtain ⟨_, rfl, rfl, hok, _, _, _⟩ := blocksOf_stages n chroms hv nblk hbin bnds h
+  have hne := relabelAll_ne_nil (hbounds nblk chroms) chroms 0 hok hv.1 (fun c hc => (hv.2 c hc).1)
+  refine ⟨(blockPairs _).map (blockVal g u), ?_, by simp [blockPairs_length, hruns],
+    value_conserved _ hne g u hg hu⟩
+  rw [allSome_hmatFibre n _ g u (le_of_eq hlen), if_pos hlen]
 
 /-- **the fill loop, transcribed literally, equals the closed form.**  `for j,(st,sp) in enumerate(zip(hstix,hspix)):
     hmat[m,n,j,i] = g[st:sp]·u[st:sp]` on a `numpy.empty` fibre of `n` columns yields `hmatFibre` (the first
@@ -455,18 +532,20 @@ theorem fill_loop_eq_closed_form (n : Nat) (bnds : List (Nat × Nat)) (g u : Lis
   ⟨hmatFibreLoop_eq n bnds g u, hmatFibreLoop_overflow n bnds g u,
    fun h geno ucols => haplomatLoop_eq n bnds geno ucols h⟩
 
-/-- with fewer blocks than columns the trailing cells are uninitialised, whatever the data -/
+/-- with fewer blocks than columns the trailing cells would be uninitialised, whatever the data (what happened
+    before the repair, `empty_bin_prerepair_counterexample`; excluded for the pipeline by `pipeline_partition`) -/
 theorem hmat_fibre_uninitialised (n : Nat) (bnds : List (Nat × Nat)) (g u : List α) (h : bnds.length < n) :
     allSome (hmatFibre n bnds g u) = none := by
   rw [allSome_hmatFibre n bnds g u h.le, if_neg (by omega)]
 
-/-- **finiteness, partial.**  When the number of blocks equals the number of columns the block-value
-    table that `_calc_ohvmat` / `latentfn` read contains no uninitialised cell: it is the table of true
-    block values. -/
-theorem haplomat_finite_partial (n : Nat) (bnds : List (Nat × Nat)) (geno : List (List (List α)))
-    (ucols : List (List α)) (t : Nat) (u : List α) (hu : ucols[t]? = some u) (h : bnds.length = n) :
+/-- **finiteness.**  Whatever the pipeline returns on a valid layout, the block-value table that `_calc_ohvmat` /
+    `latentfn` read from the haplotype matrix contains no uninitialised cell: it is the table of true block values
+    (finite numbers, sums of products of the inputs). -/
+theorem haplomat_finite (n : Nat) (chroms : List (List α)) (hv : ValidChroms chroms)
+    (nblk hbin : List Nat) (bnds : List (Nat × Nat)) (h : blocksOf n chroms = .ok (nblk, hbin, bnds))
+    (geno : List (List (List α))) (ucols : List (List α)) (t : Nat) (u : List α) (hu : ucols[t]? = some u) :
     traitValues (haplomat n bnds geno ucols) t = some (blockTable geno u bnds) :=
-  traitValues_haplomat_eq n bnds geno ucols t u hu h
+  traitValues_haplomat_eq n bnds geno ucols t u hu (blocksOf_length n chroms hv nblk hbin bnds h).1
 
 /-! ## 6. optimal haploid value and optimal population value -/
 
@@ -532,14 +611,13 @@ theorem ohv_ge_any_dh_multitrait (l : List Nat) (hne : l ≠ []) (geno : List (L
         ≤ ohv (blockTable geno u (blockPairs l)) (nruns l) parents :=
   fun u hmem => ohv_ge_any_dh l hne geno u (hu u hmem) hgeno parents ch hch
 
-/- FULL STATEMENT (false of the as-is model, see `empty_bin_counterexample`): the same without `hfull`. -/
-/-- **from the layout to the bound, end to end** (what the driver op `c18.model` computes): when the pipeline
-    returns as many blocks as requested, the table `_calc_ohvmat` reads from the haplotype matrix is fully written,
-    and the optimal haploid value computed from it — column count `n`, as in the code — bounds every
-    block-boundary doubled haploid of the cross, for every trait. -/
-theorem pipeline_ohv_ge_any_dh_partial (n : Nat) (chroms : List (List α)) (guard : Bool)
+/-- **from the layout to the bound, end to end** (what the driver op `c18.model` computes): whatever the pipeline
+    returns on a valid layout, the table `_calc_ohvmat` reads from the haplotype matrix is fully written, and the
+    optimal haploid value computed from it — column count `n`, as in the code — bounds every block-boundary doubled
+    haploid of the cross, for every trait. -/
+theorem pipeline_ohv_ge_any_dh (n : Nat) (chroms : List (List α))
     (hv : ValidChroms chroms) (nblk hbin : List Nat) (bnds : List (Nat × Nat))
-    (h : blocksOf n chroms guard = .ok (nblk, hbin, bnds)) (hfull : bnds.length = n)
+    (h : blocksOf n chroms = .ok (nblk, hbin, bnds))
     (geno : List (List (List α))) (ucols : List (List α))
     (hu : ∀ u ∈ ucols, u.length = hbin.length) (hgeno : ∀ gm ∈ geno, ∀ g ∈ gm, g.length = hbin.length)
     (parents : List Nat) (ch : Nat → Nat × Nat)
@@ -548,9 +626,9 @@ theorem pipeline_ohv_ge_any_dh_partial (n : Nat) (chroms : List (List α)) (guar
     ∃ V, traitValues (haplomat n bnds geno ucols) t = some V ∧
       (geno.length : α) * Np.dot (mosaic bnds ((List.range n).map (fun b => copyOf geno (ch b)))) u
         ≤ ohv V n parents := by
-  obtain ⟨_, rfl, rfl, hok, _⟩ := blocksOf_ok n chroms guard hv nblk hbin bnds h
-  have hne := labelsAll_ne_nil (hbounds nblk chroms) chroms 0 hok hv.1 (fun c hc => (hv.2 c hc).1)
-  have hn : nruns (labelsAll (hbounds nblk chroms) chroms 0) = n := by rw [← blockPairs_length]; exact hfull
+  obtain ⟨hfull, hn⟩ := blocksOf_length n chroms hv nblk hbin bnds h
+  obtain ⟨_, rfl, rfl, hok, _, _, _⟩ := blocksOf_stages n chroms hv nblk hbin bnds h
+  have hne := relabelAll_ne_nil (hbounds nblk chroms) chroms 0 hok hv.1 (fun c hc => (hv.2 c hc).1)
   refine ⟨_, traitValues_haplomat_eq n _ geno ucols t u hut hfull, ?_⟩
   have hmem : u ∈ ucols := List.mem_of_getElem? hut
   have := ohv_ge_any_dh _ hne geno u (hu u hmem) hgeno parents ch (by rw [hn]; exact hch)
@@ -597,6 +675,29 @@ theorem ohv_mono_parents (V : List (List (List α))) (nblk : Nat) (p q : List Na
   obtain ⟨ch, hch, heq⟩ := ohv_attained V nblk p hne
   rw [heq]
   exact ohv_ge_choice V nblk q ch (fun b hb => ⟨hpq (hch b hb).1, (hch b hb).2⟩)
+
+/-- the optimal haploid value depends only on the SET of designated parents: listing a parent twice (selfing,
+    `unique_parents = False`) or in another order changes nothing -/
+theorem ohv_depends_on_parent_set (V : List (List (List α))) (nblk : Nat) (p q : List Nat)
+    (hpq : p ⊆ q) (hqp : q ⊆ p) (hne : ∀ b, b < nblk → cands V p b ≠ []) : ohv V nblk p = ohv V nblk q := by
+  have hne' : ∀ b, b < nblk → cands V q b ≠ [] := by
+    intro b hb h0
+    obtain ⟨ch, hch, _⟩ := ohv_attained V nblk p hne
+    obtain ⟨hp, hs⟩ := hch b hb
+    obtain ⟨v, hv⟩ := Option.isSome_iff_exists.mp hs
+    have := mem_cands V q b (ch b).1 (ch b).2 v (hpq hp) hv
+    rw [h0] at this
+    simp at this
+  exact le_antisymm (ohv_mono_parents V nblk p q hpq hne) (ohv_mono_parents V nblk q p hqp hne')
+
+/-- **every parent tuple has its row.**  The cross map `_calc_xmap(ntaxa, nparent, unique_parents)` over which
+    `_calc_ohvmat` runs lists exactly the `nparent`-tuples of taxa that are strictly increasing (`unique_parents`) resp.
+    non-decreasing: no parent tuple is missing, none is listed that is not one -/
+theorem cross_map_complete (ntaxa nparent : Nat) (unique : Bool) (par : List Nat) :
+    par ∈ xmap ntaxa nparent unique ↔
+      par.length = nparent ∧ (∀ p ∈ par, p < ntaxa) ∧
+        (if unique then par.Pairwise (· < ·) else par.Pairwise (· ≤ ·)) :=
+  mem_xmap ntaxa nparent unique par
 
 /-! ## 7. the latent functions of the OHV subset problem and of the genotype builder -/
 
@@ -700,33 +801,35 @@ theorem best_phase_def (V : List (List (List α))) (p b : Nat) (v : α) :
 /-! ## 8. `spec_sound`: every clause of the Spec oracle (`c18.spec`, Model/HaploSpec.lean) accepts the model -/
 
 /-- **`spec_sound`, structural clauses.**  On every valid layout, whatever the pipeline returns passes
-    `apportion`, `partition`, `labels` and `within_chrom` (so these clauses can never raise a false alarm on a
-    tree that the model mirrors — D10 cases included), and `total` holds iff all requested blocks exist. -/
-theorem spec_sound_structure (n : Nat) (chroms : List (List α)) (guard : Bool) (hv : ValidChroms chroms)
+    `apportion`, `partition`, `labels`, `within_chrom` AND `total` (so these clauses can never raise a false alarm on
+    a tree that the model mirrors). -/
+theorem spec_sound_structure (n : Nat) (chroms : List (List α)) (hv : ValidChroms chroms)
     (nblk hbin : List Nat) (bnds : List (Nat × Nat))
-    (h : blocksOf n chroms guard = .ok (nblk, hbin, bnds)) :
+    (h : blocksOf n chroms = .ok (nblk, hbin, bnds)) :
     ∃ hstix hspix hlen, haplobinBounds hbin = .ok (hstix, hspix, hlen) ∧ bnds = List.zip hstix hspix ∧
       Spec.apportion n chroms.length nblk = true ∧
       Spec.partition hbin.length hstix hspix hlen = true ∧
       Spec.labels hbin.length hbin hstix = true ∧
       Spec.withinChrom (chromStarts chroms 0) hstix = true ∧
-      ((hstix.length == n) = true ↔ bnds.length = n) := by
-  obtain ⟨hnb, rfl, rfl, hok, _⟩ := blocksOf_ok n chroms guard hv nblk hbin bnds h
+      (hstix.length == n) = true := by
+  obtain ⟨hlen, _⟩ := blocksOf_length n chroms hv nblk hbin bnds h
+  obtain ⟨hnb, rfl, rfl, hok, _, _, _⟩ := blocksOf_stages n chroms hv nblk hbin bnds h
   obtain ⟨h1, h2, h3⟩ := blocks_sum n chroms hv.1 nblk hnb
-  have hlne := labelsAll_ne_nil (hbounds nblk chroms) chroms 0 hok hv.1 (fun c hc => (hv.2 c hc).1)
-  cases hl : labelsAll (hbounds nblk chroms) chroms 0 with
+  have hlne := relabelAll_ne_nil (hbounds nblk chroms) chroms 0 hok hv.1 (fun c hc => (hv.2 c hc).1)
+  cases hl : relabelAll (hbounds nblk chroms) chroms 0 with
   | nil => exact absurd hl hlne
   | cons a xs =>
+    rw [hl] at hlen
     refine ⟨_, _, _, haplobinBounds_eq a xs, rfl, apportion_sound n _ nblk h1 h2 h3, ?_, ?_, ?_, ?_⟩
     · simpa using partition_sound a xs
     · simpa using labels_sound a xs
-    · exact withinChrom_sound _ chroms hok hv.1 (fun c hc => (hv.2 c hc).1) a xs hl
-    · simp [blockPairs]
+    · exact withinChrom_sound_relabel _ chroms hok hv.1 (fun c hc => (hv.2 c hc).1) a xs hl
+    · simpa [blockPairs] using hlen
 
 /-- **`spec_sound`, value clauses.**  When every requested block exists, the model's fully written haplotype
     matrix, its `ohvmat`, and its OPV / OHV / GB latent vectors pass `conserve`, `ohv_def`, `ohv_ge_dh` (for ANY
     list of proposed block-wise choices), `opv_def`, `ohv_latent_def` and `gb_def`.  (`ohvmatModel` etc. are what
-    the driver op `c18.model` returns: `haplomat_finite_partial` identifies the table it reads with `blockTable`.) -/
+    the driver op `c18.model` returns: `haplomat_finite` identifies the table it reads with `blockTable`.) -/
 theorem spec_sound_values (l : List Nat) (hne : l ≠ []) (geno : List (List (List α))) (ucols : List (List α))
     (hgne : geno ≠ []) (hg : ∀ gm ∈ geno, ∀ g ∈ gm, g.length = l.length)
     (hu : ∀ u ∈ ucols, u.length = l.length) (xm : List (List Nat))
@@ -781,6 +884,44 @@ theorem spec_iff_tolerance (s a b : α) :
     Spec.approxS s a a = true :=
   ⟨approxS_iff s a b, approxS_refl s a⟩
 
+/-- **`spec_iff`, value clauses.**  With `Close s a b := |a - b| ≤ 1e-9 · max(s, |a|, |b|)`: `conserve` ⇔ the matrix has
+    the genome matrix's shape with `nhaploblk` block columns and every fibre sums to `g·u`; `ohv_def` ⇔ one row per
+    cross and every entry is `ploidy · Σ_blocks max_(phase, parent)`; `opv_def` ⇔ minus that optimal value of the selected
+    set; `ohv_latent_def` / `ohv_latent_w_def` ⇔ minus the (weighted) mean; `gb_def` ⇔ `-(ploidy/nbest) ·` the per-block
+    top-`nbest` sums.  Each clause demands its conjunct of the statement and nothing more. -/
+theorem spec_iff_values (geno : List (List (List α))) (ucols : List (List α)) (bnds : List (Nat × Nat))
+    (hmat : List (List (List (List α)))) (n : Nat) (xm : List (List Nat)) (ohvmat : List (List α))
+    (x : List Nat) (opv : List α) (sc lat xw latw : List α) (xo : List Nat) (nbest : Nat) (gb : List α) :
+    (Spec.conserve geno ucols hmat n = true ↔
+      hmat.length = geno.length ∧ ∀ m, m < geno.length →
+        (hmat.getD m []).length = (geno.getD m []).length ∧ ∀ i, i < (geno.getD m []).length →
+          ((hmat.getD m []).getD i []).length = n ∧ ∀ t, t < ucols.length →
+            Close (Spec.absSum (ucols.getD t []))
+              ((((hmat.getD m []).getD i []).map (fun row => row.getD t 0)).sum)
+              (Np.dot ((geno.getD m []).getD i []) (ucols.getD t []))) ∧
+    (Spec.ohvDef geno ucols bnds xm ohvmat = true ↔
+      ohvmat.length = xm.length ∧ ∀ t, t < ucols.length → ∀ s, s < xm.length →
+        Close (Spec.scaleOf geno (ucols.getD t [])) ((ohvmat.getD s []).getD t 0)
+          (ohv (blockTable geno (ucols.getD t []) bnds) bnds.length (xm.getD s []))) ∧
+    (Spec.opvDef geno ucols bnds x opv = true ↔
+      opv.length = ucols.length ∧ ∀ t, t < ucols.length →
+        Close (Spec.scaleOf geno (ucols.getD t [])) (-(opv.getD t 0))
+          (ohv (blockTable geno (ucols.getD t []) bnds) bnds.length x)) ∧
+    (Spec.ohvLatentDef sc ohvmat xo lat = true ↔ ∀ t, t < lat.length →
+      Close (sc.getD t 0) (lat.getD t 0)
+        (-((xo.map (fun i => (ohvmat.getD i []).getD t 0)).sum / (xo.length : α)))) ∧
+    (Spec.ohvLatentWDef sc ohvmat xw latw = true ↔ ∀ t, t < latw.length →
+      Close (sc.getD t 0) (latw.getD t 0)
+        (-((List.zipWith (fun xi row => xi * row.getD t 0) xw ohvmat).sum / xw.sum))) ∧
+    (Spec.gbDef geno ucols bnds x nbest gb = true ↔
+      gb.length = ucols.length ∧ ∀ t, t < ucols.length →
+        Close (Spec.scaleOf geno (ucols.getD t [])) (gb.getD t 0)
+          (-((geno.length : α) / (nbest : α)) * ((List.range bnds.length).map (fun b =>
+            ((sortDesc (x.map (fun p => (bestBlock (blockTable geno (ucols.getD t []) bnds) [p] b).getD 0))).take
+              nbest).sum)).sum)) :=
+  ⟨conserve_iff geno ucols hmat n, ohvDef_iff geno ucols bnds xm ohvmat, opvDef_iff geno ucols bnds x opv,
+   ohvLatentDef_iff sc ohvmat xo lat, ohvLatentWDef_iff sc ohvmat xw latw, gbDef_iff geno ucols bnds x nbest gb⟩
+
 /-- the tolerant comparison of the Spec accepts equal values (no clause can fail on exact agreement) -/
 theorem spec_approx_refl (a : α) : Spec.approx a a = true := approx_refl a
 
@@ -792,13 +933,18 @@ example : nhaploblkChrom (α := ℚ) 5
      [-9/50, -1/25, 6/25, 1/4, 26/25, 163/100]] = .ok [2, 1, 2] := by decide +kernel
 example : blocksOf (α := ℚ) 5
     [[1/10, 27/20, 39/25, 21/10, 43/20, 68/25, 76/25], [-49/100, -3/50, 59/100, 81/100],
-     [-9/50, -1/25, 6/25, 1/4, 26/25, 163/100]] true
+     [-9/50, -1/25, 6/25, 1/4, 26/25, 163/100]]
     = .ok ([2, 1, 2], [0, 0, 0, 1, 1, 1, 1, 2, 2, 2, 2, 3, 3, 3, 3, 4, 4],
            [(0, 3), (3, 7), (7, 11), (11, 15), (15, 17)]) := by decide +kernel
 -- markers exactly on a boundary go to the later bin; every bin filled; 2 and 4 blocks as requested
 example : haplobin (α := ℚ) [2] [[0, 1, 2, 3, 4]] = [some 0, some 0, some 1, some 1, some 1] := by decide +kernel
-example : blocksOf (α := ℚ) 4 [[0, 1, 2, 3, 4]] true
+example : blocksOf (α := ℚ) 4 [[0, 1, 2, 3, 4]]
     = .ok ([4], [0, 1, 2, 3, 3], [(0, 1), (1, 2), (2, 3), (3, 5)]) := by decide +kernel
+-- the literal iteration: chromosome 1 is full (1 block, 1 marker) and masked by +inf although its diff is lowest;
+-- ties go to the first index; with every chromosome full nothing is masked
+example : pickCapLit (α := ℚ) [-1, -3, 0] [1, 1, 1] [5, 1, 5] = 0 ∧ pickCap (α := ℚ) [-1, -3, 0] [1, 1, 1] [5, 1, 5] = 0 ∧
+    argminInf (α := ℚ) [none, some 2, some 2] = 1 ∧ pickCapLit (α := ℚ) [-1, -3, 0] [1, 1, 1] [1, 1, 1] = 1 ∧
+    greedyCapLit (α := ℚ) [10/3, 1/3, 4/3] [2, 3, 3] 2 [1, 1, 1] = [2, 1, 2] := by decide +kernel
 -- zero total genetic length: the NaN branch sends every extra block to chromosome 0
 example : nhaploblkChrom (α := ℚ) 3 [[1, 1], [2, 2]] = .ok [2, 1] := by decide +kernel
 -- `ValidChroms` and `BinsFilled` are inhabited by a two-chromosome layout with 3 blocks
@@ -807,7 +953,7 @@ example : ValidChroms ([[0, 1, 2], [5, 6]] : List (List ℚ)) := by
   intro c hc
   simp only [List.mem_cons, List.not_mem_nil, or_false] at hc
   rcases hc with rfl | rfl <;> exact ⟨by simp, by simp [List.pairwise_cons] <;> norm_num⟩
-example : blocksOf (α := ℚ) 3 [[0, 1, 2], [5, 6]] true = .ok ([2, 1], [0, 1, 1, 2, 2], [(0, 1), (1, 3), (3, 5)]) := by
+example : blocksOf (α := ℚ) 3 [[0, 1, 2], [5, 6]] = .ok ([2, 1], [0, 1, 1, 2, 2], [(0, 1), (1, 3), (3, 5)]) := by
   decide +kernel
 example : BinsFilled (linspace (0 : ℚ) 2 2) [0, 1, 2] := by
   intro j hj
@@ -824,6 +970,9 @@ example : ohv (α := ℚ) [[[5, 8], [6, 0], [3, 0]], [[4, 0], [7, 8], [2, 8]]] 2
     opvLatent (α := ℚ) [[[5, 8], [6, 0], [3, 0]], [[4, 0], [7, 8], [2, 8]]] 2 [0, 2] = -26 := by decide +kernel
 example : cands (α := ℚ) [[[5, 8], [6, 0], [3, 0]], [[4, 0], [7, 8], [2, 8]]] [0, 2] 0 = [5, 3, 4, 2] := by
   decide +kernel
+-- the cross maps of 3 taxa: two-way without and with selfs, three-way with repeats (10 rows)
+example : xmap 3 2 true = [[0, 1], [0, 2], [1, 2]] ∧ xmap 3 2 false = [[0, 0], [0, 1], [0, 2], [1, 1], [1, 2], [2, 2]] ∧
+    (xmap 3 3 false).length = 10 ∧ xmap 3 3 true = [[0, 1, 2]] := by decide
 -- genotype builder and OHV latent on the same table: top-2 of the best phases per block; mean of two crosses
 example : gbLatent (α := ℚ) [[[5, 8], [6, 0], [3, 0]], [[4, 0], [7, 8], [2, 8]]] 2 [0, 1, 2] 2 = -28 ∧
     gbPerBlock (α := ℚ) [[[5, 8], [6, 0], [3, 0]], [[4, 0], [7, 8], [2, 8]]] [0, 1, 2] 2 0 = 12 := by decide +kernel
@@ -877,12 +1026,20 @@ example : Spec.conserve (α := ℚ) [[[1, 0, 1, 1]]] [[1, 2, 4, 8]] (Spec.hmatTo
     Spec.opvDef (α := ℚ) [[[1, 0, 1, 1]]] [[1, 2, 4, 8]] [(0, 3), (3, 4)] [0] [-12] = false ∧
     Spec.gbDef (α := ℚ) [[[1, 0, 1, 1]]] [[1, 2, 4, 8]] [(0, 3), (3, 4)] [0] 1 [-13] = true ∧
     Spec.ohvLatentDef (α := ℚ) [60] [[30], [26], [30]] [0, 1] [-28] = true := by decide +kernel
--- the patched pipeline on the two counterexamples and on the guard case (2 far-apart markers + 4 close ones)
-example : blocksOfFixed (α := ℚ) 4 [[0, 1/100, 2/100, 1]] = .ok ([4], [0, 1, 2, 3], [(0, 1), (1, 2), (2, 3), (3, 4)]) := by
+-- the equal-count fallback on clustered positions (3 of 4 markers within 0.02): 3 and 4 blocks as requested; a
+-- rounded-boundary instance; the closed form `relabelChrom`; refusals outside [chromosome count, marker count]
+example : blocksOf (α := ℚ) 4 [[0, 1/100, 2/100, 1]] = .ok ([4], [0, 1, 2, 3], [(0, 1), (1, 2), (2, 3), (3, 4)]) := by
   decide +kernel
-example : blocksOfFixed (α := ℚ) 3 [[0, 1/100, 2/100, 1]] = .ok ([3], [0, 0, 1, 2], [(0, 2), (2, 3), (3, 4)]) := by
+example : blocksOf (α := ℚ) 3 [[0, 1/100, 2/100, 1]] = .ok ([3], [0, 0, 1, 2], [(0, 2), (2, 3), (3, 4)]) := by
   decide +kernel
-example : blocksOfFixed (α := ℚ) 5 [[0, 100], [0, 1, 2, 3]]
-    = .ok ([2, 3], [0, 1, 2, 3, 4, 4], [(0, 1), (1, 2), (2, 3), (3, 4), (4, 6)]) := by decide +kernel
+example : relabelChrom (linspace (0 : ℚ) 1 4) 0 [0, 1/100, 2/100, 1] = [0, 1, 2, 3] ∧
+    labelsChrom (linspace (0 : ℚ) 1 4) 0 [0, 1/100, 2/100, 1] = [0, 0, 0, 3] ∧
+    relabelChrom (linspace (0 : ℚ) 4 2) 7 [0, 1, 2, 3, 4] = labelsChrom (linspace (0 : ℚ) 4 2) 7 [0, 1, 2, 3, 4] := by
+  decide +kernel
+example : haplobinR (α := ℚ) (fun x => (⌊x * 8 + 1/2⌋ : ℤ) / 8) [3] [[0, 1/100, 2/100, 1]] = [some 0, some 0, some 1, some 2] := by
+  decide +kernel
+example : blocksOf (α := ℚ) 1 [[0, 1], [0, 1]] = .error "value" ∧ blocksOf (α := ℚ) 5 [[0, 1], [0, 1]] = .error "value" ∧
+    blocksOf (α := ℚ) 4 [[0, 1], [0, 1]] = .ok ([2, 2], [0, 1, 2, 3], [(0, 1), (1, 2), (2, 3), (3, 4)]) := by
+  refine ⟨by decide +kernel, by decide +kernel, by decide +kernel⟩
 
 end C18
